@@ -745,3 +745,197 @@ func baseIdentity(x ssa.Value) ssa.Value {
 	}
 	return x
 }
+
+// ---- PRECOMMIT-NO-ALIAS (C07, C14): before the commit point nothing may write through memory that
+// aliases the allocator's live free lists.  Summaries: mutatesParam(f,i) — f stores through parameter i
+// (element/field stores, or hands it to a callee that does); mayReturnAlias(f,i) — f can return
+// parameter i (or a slice of it) unchanged.
+
+type aliasSummaries struct {
+	p       *Program
+	mut     map[*ssa.Function]map[int]bool
+	ret     map[*ssa.Function]map[int]bool
+	visited map[*ssa.Function]bool
+}
+
+func paramIndex(fn *ssa.Function, v ssa.Value) int {
+	for i, p := range fn.Params {
+		if ssa.Value(p) == v {
+			return i
+		}
+	}
+	return -1
+}
+
+// rootParam: v is parameter i of fn, possibly re-sliced / converted / merged through φ.
+func rootParams(fn *ssa.Function, v ssa.Value, seen map[ssa.Value]bool, out map[int]bool) {
+	if v == nil || seen[v] {
+		return
+	}
+	seen[v] = true
+	if i := paramIndex(fn, v); i >= 0 {
+		out[i] = true
+		return
+	}
+	switch x := v.(type) {
+	case *ssa.Slice:
+		rootParams(fn, x.X, seen, out)
+	case *ssa.Convert:
+		rootParams(fn, x.X, seen, out)
+	case *ssa.ChangeType:
+		rootParams(fn, x.X, seen, out)
+	case *ssa.Phi:
+		for _, e := range x.Edges {
+			rootParams(fn, e, seen, out)
+		}
+	case *ssa.IndexAddr:
+		rootParams(fn, x.X, seen, out)
+	case *ssa.FieldAddr:
+		rootParams(fn, x.X, seen, out)
+	case *ssa.UnOp:
+		// load of a spilled parameter
+		if a, ok := x.X.(*ssa.Alloc); ok && a.Referrers() != nil {
+			for _, r := range *a.Referrers() {
+				if st, ok := r.(*ssa.Store); ok && st.Addr == ssa.Value(a) {
+					rootParams(fn, st.Val, seen, out)
+				}
+			}
+		}
+	case *ssa.Call:
+		// append(param[:k], ...) may alias param's backing array
+		if bi, ok := x.Common().Value.(*ssa.Builtin); ok && bi.Name() == "append" && len(x.Common().Args) > 0 {
+			rootParams(fn, x.Common().Args[0], seen, out)
+		}
+	}
+}
+
+func (s *aliasSummaries) compute(fn *ssa.Function, depth int) {
+	if s.visited[fn] || len(fn.Blocks) == 0 || depth > 4 {
+		return
+	}
+	s.visited[fn] = true
+	s.mut[fn] = map[int]bool{}
+	s.ret[fn] = map[int]bool{}
+	for _, b := range fn.Blocks {
+		for _, ins := range b.Instrs {
+			switch x := ins.(type) {
+			case *ssa.Store:
+				switch x.Addr.(type) {
+				case *ssa.IndexAddr, *ssa.FieldAddr:
+					rootParams(fn, x.Addr, map[ssa.Value]bool{}, s.mut[fn])
+				}
+			case *ssa.Return:
+				for _, r := range x.Results {
+					if _, isSlice := r.Type().Underlying().(*types.Slice); isSlice {
+						rootParams(fn, r, map[ssa.Value]bool{}, s.ret[fn])
+					}
+				}
+			case ssa.CallInstruction:
+				sc := x.Common().StaticCallee()
+				if sc == nil || !s.p.InRepo(sc) {
+					continue
+				}
+				s.compute(sc, depth+1)
+				for i, a := range x.Common().Args {
+					if s.mut[sc][i] {
+						rootParams(fn, a, map[ssa.Value]bool{}, s.mut[fn])
+					}
+				}
+			}
+		}
+	}
+}
+
+func rulePRECOMMITNOALIAS(p *Program, rep *Report) {
+	rep.Rule("PRECOMMIT-NO-ALIAS", 2, "in the commit-preparation code (allocator.fileCommitAlloc) a value that may alias the allocator's live free list (a load of freelist.regions, or the result of a helper that can return its argument unchanged) is never handed to code that writes through it: the live allocator state must not change before the commit point")
+	fn := p.Method("txfile", "allocator", "fileCommitAlloc")
+	v := newAllocVocab(p)
+	sum := &aliasSummaries{p: p, mut: map[*ssa.Function]map[int]bool{}, ret: map[*ssa.Function]map[int]bool{}, visited: map[*ssa.Function]bool{}}
+	rep.Analysed(funcName(fn))
+	// tainted: may alias live freelist storage
+	tainted := map[ssa.Value]bool{}
+	changed := true
+	for changed {
+		changed = false
+		for _, b := range fn.Blocks {
+			for _, ins := range b.Instrs {
+				val, ok := ins.(ssa.Value)
+				if !ok || tainted[val] {
+					continue
+				}
+				t := false
+				switch x := ins.(type) {
+				case *ssa.UnOp:
+					t = loadedField(x) == v.fRegions
+				case *ssa.Slice:
+					t = tainted[x.X]
+				case *ssa.Phi:
+					for _, e := range x.Edges {
+						t = t || tainted[e]
+					}
+				case *ssa.ChangeType:
+					t = tainted[x.X]
+				case *ssa.Call:
+					if sc := x.Common().StaticCallee(); sc != nil && p.InRepo(sc) {
+						sum.compute(sc, 0)
+						for i, a := range x.Common().Args {
+							if tainted[a] && sum.ret[sc][i] {
+								t = true
+							}
+						}
+					}
+				case *ssa.Extract:
+					t = tainted[x.Tuple]
+				}
+				if t {
+					tainted[val] = true
+					changed = true
+				}
+			}
+		}
+	}
+	nCalls := 0
+	for _, b := range fn.Blocks {
+		for _, ins := range b.Instrs {
+			switch x := ins.(type) {
+			case ssa.CallInstruction:
+				sc := x.Common().StaticCallee()
+				if sc == nil || !p.InRepo(sc) {
+					continue
+				}
+				sum.compute(sc, 0)
+				for i, a := range x.Common().Args {
+					if _, isSlice := a.Type().Underlying().(*types.Slice); !isSlice {
+						continue
+					}
+					if !sum.mut[sc][i] {
+						continue
+					}
+					nCalls++
+					key := fmt.Sprintf("allocator.fileCommitAlloc|%s#%d", sc.Name(), i)
+					if tainted[a] {
+						rep.Bad("PRECOMMIT-NO-ALIAS", key, p.InstrPos(ins), "a list that can alias the allocator's live free list is passed to "+sc.Name()+", which modifies its argument in place: the in-memory allocator changes before the commit point and a failed commit / rollback does not restore it")
+					} else {
+						rep.OK("PRECOMMIT-NO-ALIAS", key, p.InstrPos(ins), "argument is freshly built (no alias of the live free list)")
+					}
+				}
+			case *ssa.Store:
+				if ia, ok := x.Addr.(*ssa.IndexAddr); ok && tainted[ia.X] {
+					rep.Bad("PRECOMMIT-NO-ALIAS", "allocator.fileCommitAlloc|element-store", p.InstrPos(ins), "commit preparation writes through the live free list")
+				}
+			}
+		}
+	}
+	if nCalls == 0 {
+		rep.Unknown("PRECOMMIT-NO-ALIAS", "allocator.fileCommitAlloc|anchor", p.Pos(fn.Pos()), "no in-place list consumer found in fileCommitAlloc (anchor lost)")
+	} else {
+		// the merge helper itself: report what it may return
+		merge := p.Func("txfile", "mergeRegionLists")
+		sum.compute(merge, 0)
+		if len(sum.ret[merge]) == 0 {
+			rep.OK("PRECOMMIT-NO-ALIAS", "mergeRegionLists|fresh-result", p.Pos(merge.Pos()), "never returns one of its arguments")
+		} else {
+			rep.OK("PRECOMMIT-NO-ALIAS", "mergeRegionLists|may-return-argument", p.Pos(merge.Pos()), "may return an argument unchanged; call sites checked for aliasing")
+		}
+	}
+}
